@@ -1071,9 +1071,9 @@ Proof.
   intros H. unfold parse_top in H. rewrite parse_content_strict in H.
   assert (PRE : task_pre s false (TGeneral (walker_state cx) top_opts 0)).
   { split; cbn [task_pos]; [lia|]. split; [apply good_walker | exact I]. }
-  pose proof (run_post s cx false (fun E => False_ind _ (Bool.diff_false_true E)) (parse_fuel s) _ PRE) as P.
+  pose proof (run_post s cx false (fun E => False_ind _ (Bool.diff_false_true E)) (parse_fuel s cx) _ PRE) as P.
   cbn [post] in P.
-  destruct (run s false cx (parse_fuel s) (TGeneral (walker_state cx) top_opts 0)) as [o1 p1|e p1|p1|k1|];
+  destruct (run s false cx (parse_fuel s cx) (TGeneral (walker_state cx) top_opts 0)) as [o1 p1|e p1|p1|k1|];
     cbn [res_post] in P; try discriminate; [|destruct P].
   destruct P as (A & B & pc & it & -> & T & W & PC & RQ).
   specialize (RQ eq_refl). cbn [top_opts g_stop g_nl] in RQ. destruct (RQ eq_refl) as [-> ->].
